@@ -14,6 +14,7 @@ import (
 	"os"
 	"os/exec"
 	"sync"
+	"time"
 )
 
 type sysWorker struct {
@@ -90,6 +91,7 @@ func runSysIsolated(cases []sysIn, par int) []map[string]any {
 					}
 				}
 				b, _ := json.Marshal(cases[i])
+				t0 := time.Now()
 				var line []byte
 				_, err := w.in.Write(append(b, '\n'))
 				if err == nil {
@@ -106,6 +108,9 @@ func runSysIsolated(cases []sysIn, par int) []map[string]any {
 					w = nil
 				}
 				res[i] = o
+				if d := time.Since(t0); d > 3*time.Second && os.Getenv("VERIF_SLOW") != "" {
+					fmt.Fprintf(os.Stderr, "slow case %d: %v\n", i, d)
+				}
 			}
 		}()
 	}
